@@ -480,6 +480,17 @@ def r26_9(ctx, rep):
            "the loop iterates `%s`, not the result of list_modelica_files(paths)" % norm(lp.iter))
 
 
+@SPEC.rule(
+    "R26.10",
+    "one invocation does not see another: no function of tools/compiler.py writes a module-level container, is wrapped in a "
+    "caching decorator, or changes / hands out a mutable default argument — main() is called repeatedly in one process by the "
+    "test-suite and by embedding scripts, and options or error counts remembered from an earlier call change the exit status of a later one",
+)
+def r26_10(ctx, rep):
+    from .c25 import module_state_free
+    module_state_free(ctx, rep, "R26.10", CLI, "the compiler tool")
+
+
 # -- seeded variants ---------------------------------------------------------
 from ._mut import delete_stmt_where, replace_in_func  # noqa: E402
 
@@ -597,3 +608,14 @@ def _m_seen_names(mod):
         return False
 
     return mod if replace_in_func(mod, "parse_all", edit) else None
+
+
+@SPEC.mutant("options collected in a mutable default argument", CLI, "R26.10", "no state kept")
+def _m_mutable_default(mod):
+    for fn in ast.walk(mod):
+        if isinstance(fn, ast.FunctionDef) and fn.name == "translate":
+            fn.args.args.append(ast.arg(arg="_seen", annotation=None))
+            fn.args.defaults.append(ast.List(elts=[], ctx=ast.Load()))
+            fn.body.insert(1 if isinstance(fn.body[0], ast.Expr) else 0, ast.parse("_seen.append(1)").body[0])
+            return mod
+    return None
